@@ -1,0 +1,15 @@
+//go:build verif
+
+package cleaner
+
+// VerifLockIsFree reports whether the mutex of the IdleInvoker can be
+// acquired right now. It only exists in builds with the "verif" tag and
+// is used by the verification harness to check that no call leaves the
+// lock behind. It does not modify any state.
+func (i *IdleInvoker) VerifLockIsFree() bool {
+	if !i.lock.TryLock() {
+		return false
+	}
+	i.lock.Unlock()
+	return true
+}
